@@ -20,8 +20,10 @@ CLAIMED = {
         '(thorough) chunk schedules biased to structure boundaries; final '
         'verdicts must agree, intermediate queries must have no effect and '
         'after every chunk each retained region must equal the stream bytes '
-        'at its offsets. Evidence, not proof: schedules x contents are '
-        'sampled; only the tiny engine sweep is complete.',
+        'at its offsets (query plans up to every query after every chunk; '
+        'wrapper read() sessions with short reads). Evidence, not proof: '
+        'schedules x contents are sampled; only the tiny engine sweep is '
+        'complete.',
         note='Trusted: CPython, struct, the layout models in '
         'models/formats.py. Known findings F1 (VMDK text-descriptor mode) and '
         'F3 (VMDK footer on streams < 1600 bytes) are reported as '
@@ -58,7 +60,11 @@ CLAIMED.update({
         'seeded schedules including one giant chunk; after every chunk and '
         'after finish() the bytes reported by context_info must stay under '
         '1.5 MiB (vmdk) / 512 KiB (others). Streams are longer than the '
-        'bound past the structure concerned so an unbounded capture shows.',
+        'bound past the structure concerned so an unbounded capture shows. '
+        'Hostile content also includes one structural unit of a format '
+        '(volume descriptors, table headers, sparse headers, magic strings) '
+        'repeated to the end of the stream and read in chunks no larger '
+        'than the unit.',
         note='Trusted: context_info reports what is retained (the property '
         'is stated in terms of it).'),
     'C07': dict(
@@ -93,7 +99,11 @@ CLAIMED.update({
         '(exclusivity, raw only when nothing matches, multiple => '
         'ImageFormatError, allowed set honoured), every sample must be total '
         '(nothing but ImageFormatError) and a decision once reported must '
-        'never change.',
+        'never change. Further dimensions: expected_format inside / outside '
+        'allowed_formats, short reads, signatures planted near the end of '
+        'the stream; and a model-free metamorphic rule: signatures that are '
+        'each detected when planted alone must be refused when planted '
+        'together.',
         note='Trusted: models/sigmodel.py. "maybe" (signature present but '
         'stream shorter than the decision point; VMDK text territory) '
         'asserts nothing.'),
@@ -105,21 +115,25 @@ CLAIMED.update({
         'pass-through pipe reference model',
         text='Per workload (content, read plan, file or iterator source, '
         'expected_format, allowed_formats, inspector order) every placement '
-        'of one injected exception - each inspector x chunk index (first 6, '
-        'last 2) x phase (before eating, after capture, inside '
-        'post_process) - is executed as its own simulated session; further '
-        'runs sample up to three faults (also inside region_complete), eight '
-        'exception classes and source faults. Each session records what the '
+        'of one injected exception - each inspector x every chunk index x '
+        'phase (before eating, after capture, inside post_process) - is '
+        'executed as its own simulated session; further runs sample up to '
+        'three faults (also inside region_complete), twelve exception '
+        'classes (empty message, unrenderable), source faults, short reads, '
+        'read(0), debug logging that really renders, and a reader that goes '
+        'on after the abort. Each session records what the '
         'source produced, every eat_chunk call and outcome, what the reader '
         'received and what surfaced, and is judged against the reference '
         'pipe: bytes unchanged and in order, non-expected failures never '
         'surface, a failed inspector is never fed again, healthy inspectors '
         'see exactly the stream, the expected inspector failing or '
         'mismatching cuts the stream at that chunk with the right exception '
-        'and no further source read.',
-        note='Enumeration is complete only per workload over the listed '
-        'chunk indices and three phases; workloads, multi-fault sequences '
-        'and exception classes are sampled. BaseException is not injected.'),
+        'and no further source read, the stream is never ended early and the '
+        'wrapper never feeds an inspector it has already finished.',
+        note='Enumeration is complete only per workload (sweep workloads have '
+        '<= 14 chunks) over all chunk indices and three phases; workloads, '
+        'multi-fault sequences and exception classes are sampled. '
+        'BaseException is not injected.'),
 })
 CLAIMED.update({
     'C12': dict(
@@ -154,9 +168,13 @@ CLAIMED.update({
         'reference machine that receives the readings handed out during the '
         'call. Exact equality while the clock is monotonic; clamps, '
         'legality and flags only after a backward step. All 3 x 13 '
-        '(state, op) transitions are reached in every batch (reported).',
-        note='Sampling of histories, not the exhaustive length-6 enumeration '
-        'the quantifier mentions (that would be model checking).'),
+        '(state, op) transitions are reached in every batch (reported). The '
+        'first runs of a batch are a declared sweep layer: every call '
+        'sequence up to length 4 (quick) / 6 (thorough) over a 15-symbol '
+        'alphabet, each under a seeded clock pattern.',
+        note='The claim rests on the seeded search; the sweep of short '
+        'sequences is a smoke layer (complete over sequences, sampled over '
+        'clock patterns and, at the deepest length, durations).'),
 })
 CLAIMED.update({
     'C09': dict(
@@ -171,8 +189,10 @@ CLAIMED.update({
         'exceptions, direct force_reraise), manual capture/force_reraise, '
         'exception_filter (context manager, direct call, bound method, '
         'decorator) or remove_path_on_error (real and failing removers on a '
-        'scratch directory), with six exception classes; tasks are '
-        'interleaved at every yield point by the seeded scheduler. Outcome '
+        'scratch directory; the remover itself may be switched out), with '
+        'seven exception classes (incl. falsy instances) and new exceptions '
+        'chained to the original; tasks are interleaved at every yield '
+        'point by the seeded scheduler. Outcome '
         'per task - which exception object leaves the construct (identity), '
         'that its traceback ends with the frames of the original raise, '
         'logger.error calls and their content, file-system effect - is '
@@ -197,7 +217,8 @@ CLAIMED.update({
         'one-shot digest and a read-count bound; last_bytes for n around the '
         'size with seek errors; write_to_tempfile with nested missing '
         'directories, prefix/suffix, pre-existing files, injected '
-        'write/close/mkstemp/makedirs errors and descriptor accounting.',
+        'write/close/mkstemp/makedirs errors, the directory removed between '
+        'two calls, and descriptor accounting by fstat.',
         note='A short os.write is not injected (outside the statement). '
         'delete_if_exists default remover (bound at import) is exercised '
         'with real files only.'),
